@@ -245,6 +245,8 @@ func (s *Stream) read() bool {
 		}
 		n, err = s.r.Read(buf[:last])
 	}
+	// terminate the data: a reader may have used the rest of the slice as scratch space
+	buf[n] = nul
 	s.length += int64(n)
 	if n == last {
 		s.filledBuffer = true
